@@ -1033,6 +1033,11 @@ func DeleteHistoricVersions(ctx context.Context, s *DB, before time.Time) error 
 			if err != nil {
 				return err
 			}
+			// The version is gone: this tree is the empty table that no
+			// version describes, and must not go on naming the deleted one.
+			s.crdt.Source = nil
+			s.crdt.MergeSources = nil
+			s.mergedRoots = map[string][]byte{}
 		}
 	}
 
